@@ -48,7 +48,7 @@ func Read(fd io.Reader) (*Metrics, error) {
 	scanner.Buffer(nil, maxLineLength)
 	for scanner.Scan() {
 		line := scanner.Text()
-		if strings.HasPrefix(line, "EndCharMetrics") {
+		if strings.HasPrefix(strings.TrimSpace(line), "EndCharMetrics") {
 			charMetrics = false
 			continue
 		}
